@@ -172,6 +172,8 @@ func runC14(c *Ctx, r *Report) {
 	c14r5(c, r)
 	c14round2(c, r)
 	c14r8(c, r)
+	c14r9(c, r)
+	c20r11(c, r) // no preview child survives: the watcher takes a kill request also during the grace period
 }
 
 func c14r1(c *Ctx, r *Report) {
